@@ -295,3 +295,133 @@ Proof.
   unfold okp in Hok. simpl in Hok. bsplit. unfold wf_einsum. simpl. bsplit; auto.
   destruct tms; [congruence|reflexivity].
 Qed.
+
+(* ------------------------------------------------------------------ Einsum expressions: completeness *)
+
+Definition not_head (y : sym) (r : list token) : bool :=
+  match r with TSym y' :: _ => negb (sym_eqb y' y) | _ => true end.
+
+Lemma p_iterm_complete t r : p_iterm (toks_iterm t ++ r) = Some (t, r).
+Proof. destruct t as [x|[] ds x]; reflexivity. Qed.
+
+Lemma toks_iterm_nonempty t : toks_iterm t <> [].
+Proof. destruct t as [x|[] ds x]; discriminate. Qed.
+
+Lemma stop_always sep r : not_head sep r = true -> stop (TSym sep) always r = true.
+Proof.
+  destruct r as [|t r]; [reflexivity|]. simpl. unfold always. rewrite andb_true_r.
+  destruct t; simpl; auto.
+Qed.
+
+Lemma p_iexpr_complete e r : wf_iexpr e = true -> not_head SPlus r = true -> p_iexpr (toks_iexpr e ++ r) = Some (e, r).
+Proof.
+  intros Hwf Hr. unfold wf_iexpr in Hwf. bsplit. unfold p_iexpr, toks_iexpr.
+  apply (p_sep_complete p_iterm toks_iterm (TSym SPlus) always wf_iterm (fun _ => true)); auto.
+  - intros. apply p_iterm_complete.
+  - intros. apply toks_iterm_nonempty.
+  - destruct e; [discriminate|congruence].
+  - now apply stop_always.
+Qed.
+
+(* the first token of an index expression *)
+Definition starts_iterm (ts : list token) : bool :=
+  match ts with TName _ :: _ | TNum _ :: _ | TSym SMinus :: _ => true | _ => false end.
+Lemma toks_iexpr_starts e r : wf_iexpr e = true -> starts_iterm (toks_iexpr e ++ r) = true.
+Proof.
+  unfold wf_iexpr. intros H. bsplit. destruct e as [|t e]; [discriminate|].
+  unfold toks_iexpr. cbn [map]. destruct (join_head (TSym SPlus) (toks_iterm t) (map toks_iterm e) r) as [r' ->].
+  destruct t as [x|[] ds x]; reflexivity.
+Qed.
+Lemma toks_iexpr_nonempty e : wf_iexpr e = true -> toks_iexpr e <> [].
+Proof.
+  intros H E. pose proof (toks_iexpr_starts e [] H) as S. rewrite app_nil_r, E in S. discriminate.
+Qed.
+
+Lemma p_ranks_complete rs r : wf_ranks rs = true -> p_ranks (toks_ranks rs ++ r) = Some (rs, r).
+Proof.
+  intros Hwf. destruct rs as [|e rs]; [reflexivity|].
+  unfold toks_ranks. rewrite <- app_comm_cons. rewrite <- app_assoc.
+  set (J := join (TSym SComma) (map toks_iexpr (e :: rs))).
+  assert (HJ : p_sep p_iexpr (TSym SComma) always (J ++ [TSym SRBrack] ++ r) = Some (e :: rs, [TSym SRBrack] ++ r)).
+  { apply (p_sep_complete p_iexpr toks_iexpr (TSym SComma) always wf_iexpr (not_head SPlus)); auto.
+    - intros. now apply p_iexpr_complete.
+    - intros. now apply toks_iexpr_nonempty.
+    - discriminate. }
+  assert (HS : starts_iterm (J ++ [TSym SRBrack] ++ r) = true).
+  { unfold J. cbn [map]. destruct (join_head (TSym SComma) (toks_iexpr e) (map toks_iexpr rs) ([TSym SRBrack] ++ r)) as [r' ->].
+    apply toks_iexpr_starts. unfold wf_ranks in Hwf. cbn [forallb] in Hwf. bsplit. assumption. }
+  unfold p_ranks. destruct (J ++ [TSym SRBrack] ++ r) as [|t0 rest] eqn:EJ; [discriminate|].
+  destruct t0 as [x|x|x|x| |y]; try discriminate; try (rewrite HJ; reflexivity).
+  destruct y; try discriminate. rewrite HJ. reflexivity.
+Qed.
+
+Lemma p_factor_complete f r : wf_factor f = true -> not_head SLBrack r = true -> p_factor (toks_factor f ++ r) = Some (f, r).
+Proof.
+  intros Hwf Hr. destruct f as [x|x rs].
+  - simpl. destruct r as [|t r]; [reflexivity|]. destruct t as [| | | | |y]; try reflexivity. destruct y; try reflexivity. discriminate.
+  - simpl in Hwf. bsplit. simpl toks_factor. rewrite <- app_comm_cons.
+    unfold p_factor. pose proof (p_ranks_complete rs r H0) as HR.
+    unfold toks_ranks in *. rewrite <- app_comm_cons in *. rewrite HR. reflexivity.
+Qed.
+
+Lemma toks_factor_nonempty f : toks_factor f <> [].
+Proof. destruct f; discriminate. Qed.
+
+Definition starts_kw (ts : list token) : bool := match ts with TKw _ :: _ => true | _ => false end.
+Lemma p_term_nokw ts : starts_kw ts = false ->
+  p_term ts = match p_sep p_factor (TSym SStar) always ts with Some (fs, r) => Some (TTimes fs, r) | None => None end.
+Proof. destruct ts as [|t ts]; [reflexivity|]. destruct t; try reflexivity. discriminate. Qed.
+
+Definition fol_term (r : list token) : bool := not_head SLBrack r && not_head SStar r.
+
+Lemma p_term_complete t r : wf_term t = true -> fol_term r = true -> p_term (toks_term t ++ r) = Some (t, r).
+Proof.
+  intros Hwf Hr. unfold fol_term in Hr. bsplit. destruct t as [fs|fs sel]; simpl in Hwf; bsplit.
+  - assert (HP : p_sep p_factor (TSym SStar) always (toks_term (TTimes fs) ++ r) = Some (fs, r)).
+    { apply (p_sep_complete p_factor toks_factor (TSym SStar) always wf_factor (not_head SLBrack)); auto.
+      - intros. now apply p_factor_complete.
+      - intros. apply toks_factor_nonempty.
+      - destruct fs; [discriminate|congruence].
+      - now apply stop_always. }
+    rewrite p_term_nokw, HP; [reflexivity|].
+    destruct fs as [|f fs]; [discriminate|]. unfold toks_term. cbn [map].
+    destruct (join_head (TSym SStar) (toks_factor f) (map toks_factor fs) r) as [r' ->].
+    destruct f; reflexivity.
+  - simpl toks_term. rewrite <- app_comm_cons. rewrite <- app_assoc.
+    assert (HP : p_sep p_factor (TSym SComma) cont_take (join (TSym SComma) (map toks_factor fs) ++ [TSym SComma; TNum sel; TSym SRPar] ++ r)
+                 = Some (fs, [TSym SComma; TNum sel; TSym SRPar] ++ r)).
+    { apply (p_sep_complete p_factor toks_factor (TSym SComma) cont_take wf_factor (not_head SLBrack)); auto.
+      - intros. now apply p_factor_complete.
+      - intros a r0 _. destruct a; reflexivity.
+      - intros. apply toks_factor_nonempty.
+      - destruct fs; [discriminate|congruence]. }
+    unfold p_term. simpl String.eqb. rewrite HP. reflexivity.
+Qed.
+
+Lemma toks_term_nonempty t : wf_term t = true -> toks_term t <> [].
+Proof.
+  destruct t as [fs|fs sel]; simpl; intros H; bsplit; [|discriminate].
+  destruct fs as [|f fs]; [discriminate|]. cbn [map].
+  destruct (join_head (TSym SStar) (toks_factor f) (map toks_factor fs) []) as [r' Hr']. rewrite app_nil_r in Hr'.
+  rewrite Hr'. destruct f; discriminate.
+Qed.
+
+Lemma p_einsum_cons z r : p_einsum (TName z :: r) =
+  match p_ranks r with
+  | Some (rs, TSym SEq :: r') =>
+      match p_sep p_term (TSym SPlus) always r' with Some (tms, []) => Some (mkEinsum z rs tms) | _ => None end
+  | _ => None
+  end.
+Proof. reflexivity. Qed.
+
+Lemma p_einsum_complete e : wf_einsum e = true -> p_einsum (toks_einsum e) = Some e.
+Proof.
+  destruct e as [z rs tms]. intros H. unfold wf_einsum in H. simpl in H. bsplit.
+  change (toks_einsum (mkEinsum z rs tms)) with (TName z :: toks_ranks rs ++ TSym SEq :: join (TSym SPlus) (map toks_term tms)).
+  rewrite p_einsum_cons. rewrite (p_ranks_complete rs _ H2).
+  rewrite <- (app_nil_r (join (TSym SPlus) (map toks_term tms))).
+  rewrite (p_sep_complete p_term toks_term (TSym SPlus) always wf_term fol_term); auto.
+  - intros. now apply p_term_complete.
+  - intros. now apply toks_term_nonempty.
+  - destruct tms; [discriminate|congruence].
+Qed.
